@@ -24,6 +24,13 @@ import ast
 from .astutil import clone, substitute, substitute_stmt
 
 
+def norm_name(e):
+    try:
+        return ast.unparse(e)
+    except Exception:
+        return ""
+
+
 class NotInlinable(Exception):
     pass
 
@@ -504,8 +511,124 @@ class Canonicaliser:
         T().visit(fn)
 
     # -- whole program
+    # -- decorators of the package, applied
+    def _decorator_parts(self, dnode):
+        """(outer parameter bindings, wrapped-function parameter name, wrapper FunctionDef) for a decorator written in
+        the package as `def deco(fn): [@wraps(fn)] def wrapper(...): ...; return wrapper`, or as a factory
+        `def deco(a, b): def decorator(fn): <the above>; return decorator` used as `@deco(x, y)`; else None"""
+        name = dnode.func.id if isinstance(dnode, ast.Call) and isinstance(dnode.func, ast.Name) else (
+            dnode.id if isinstance(dnode, ast.Name) else None)
+        if name is None:
+            return None
+        cands = [fs[name] for fs in self.module_funcs.values() if name in fs]
+        if len(cands) != 1:
+            return None
+        d = cands[0]
+
+        def simple(f):
+            body = [b for b in f.body if not (isinstance(b, ast.Expr) and isinstance(b.value, ast.Constant))]
+            if len(body) == 2 and isinstance(body[0], ast.FunctionDef) and isinstance(body[1], ast.Return) \
+                    and isinstance(body[1].value, ast.Name) and body[1].value.id == body[0].name and len(f.args.args) == 1:
+                w = body[0]
+                if all(isinstance(x, ast.Call) and norm_name(x.func) in ("wraps", "functools.wraps") for x in w.decorator_list):
+                    return f.args.args[0].arg, w
+            return None
+        if isinstance(dnode, ast.Name):
+            r = simple(d)
+            return ({}, r[0], r[1]) if r else None
+        body = [b for b in d.body if not (isinstance(b, ast.Expr) and isinstance(b.value, ast.Constant))]
+        if len(body) == 2 and isinstance(body[0], ast.FunctionDef) and isinstance(body[1], ast.Return) \
+                and isinstance(body[1].value, ast.Name) and body[1].value.id == body[0].name:
+            r = simple(body[0])
+            if r is None:
+                return None
+            ps = [a.arg for a in d.args.args]
+            bind = {}
+            for i, a in enumerate(dnode.args):
+                if i < len(ps):
+                    bind[ps[i]] = a
+            for k in dnode.keywords:
+                if k.arg:
+                    bind[k.arg] = k.value
+            if set(bind) != set(ps) or not all(isinstance(v, ast.Constant) for v in bind.values()):
+                return None
+            return bind, r[0], r[1]
+        return None
+
+    def apply_decorators(self):
+        """a method decorated with a simple decorator of the package reads as the decorator's wrapper, the original body
+        becoming a private helper `_<name>__undecorated` that the wrapper calls (and that the inlining below splices back
+        in): `@without_duplicates def f(self): return xs` is `def f(self): return list(set(xs))`"""
+        from .astutil import fold_static
+        n_applied = 0
+        for m, (rel, tree, _) in self.pm.modules.items():
+            for cls in [c for c in tree.body if isinstance(c, ast.ClassDef)]:
+                added = []
+                for f in [x for x in cls.body if isinstance(x, ast.FunctionDef)]:
+                    while f.decorator_list:
+                        dn = f.decorator_list[-1]        # the innermost decorator is applied first
+                        if norm_name(dn) in ("property", "staticmethod", "classmethod", "abstractmethod") \
+                                or norm_name(getattr(dn, "func", dn)).endswith((".setter", ".getter")):
+                            break
+                        parts = self._decorator_parts(dn)
+                        if parts is None:
+                            break
+                        bind, fparam, w = parts
+                        wps = [a.arg for a in w.args.args]
+                        fps = [a.arg for a in f.args.args]
+                        if len(wps) != len(fps) or w.args.vararg or w.args.kwarg or f.args.vararg or f.args.kwarg:
+                            break
+                        hname = f"_{f.name.lstrip('_')}__undecorated"
+                        helper = ast.FunctionDef(name=hname, args=f.args, body=f.body, decorator_list=[], returns=None,
+                                                 type_comment=None, lineno=f.lineno, col_offset=f.col_offset)
+                        if hasattr(f, "type_params"):
+                            helper.type_params = []
+
+                        class T(ast.NodeTransformer):
+                            ok = True
+
+                            def visit_Call(self, node):
+                                if isinstance(node.func, ast.Name) and node.func.id == fparam:
+                                    if [norm_name(a) for a in node.args] != wps or node.keywords:
+                                        T.ok = False
+                                        return node
+                                    return ast.copy_location(ast.Call(
+                                        func=ast.Attribute(value=ast.Name(id=wps[0], ctx=ast.Load()), attr=hname, ctx=ast.Load()),
+                                        args=node.args[1:], keywords=[]), node)
+                                self.generic_visit(node)
+                                return node
+
+                            def visit_Name(self, node):
+                                if node.id == fparam:
+                                    T.ok = False
+                                return node
+                        mapping = {k: v for k, v in bind.items()}
+                        newbody = [T().visit(substitute_stmt(clone(b), mapping)) for b in w.body]
+                        if not T.ok or wps[0] != fps[0]:
+                            break
+                        ren = {a: ast.Name(id=b, ctx=ast.Load()) for a, b in zip(wps, fps) if a != b}
+                        if ren:
+                            newbody = [substitute_stmt(b, ren) for b in newbody]
+                        for b in newbody:
+                            for x in ast.walk(b):
+                                if hasattr(x, "lineno"):
+                                    x.lineno = f.lineno
+                        f.body = newbody
+                        fold_static(f)
+                        f.decorator_list = f.decorator_list[:-1]
+                        added.append(helper)
+                        n_applied += 1
+                cls.body += added
+        self.stats["decorators_applied"] = n_applied
+        if n_applied:
+            for m, (rel, tree, _) in self.pm.modules.items():
+                for n in ast.walk(tree):
+                    for ch in ast.iter_child_nodes(n):
+                        ch._parent = n
+
     def run(self):
         pm = self.pm
+        self.apply_decorators()
         for m, (rel, tree, _) in pm.modules.items():
             for s in tree.body:
                 if isinstance(s, ast.FunctionDef):
